@@ -43,7 +43,7 @@ def with_table(line, calls, table):
     return line + ' (parses ' + ' '.join(table[t] for t in dict.fromkeys(need)) + ')'
 
 
-def history(rng, texts, cache):
+def history(rng, texts, cache, evals_only=False):
     he = proggen.HostEnv(rng)
     nmaps = rng.randint(1, 3)
     maps = []
@@ -69,6 +69,8 @@ def history(rng, texts, cache):
             if prev:
                 t = rng.choice(prev)[1]
                 t = rng.choice([t, t, t.rstrip() + ' ', t.rstrip() + '\n', t.rstrip()])
+        if evals_only:
+            k = 9
         if k <= 1:
             calls.append(('parse', t))
         elif k == 2:
